@@ -214,6 +214,15 @@ func runC04(c *core.Ctx) {
 						okS, detail = true, "new empty stream literal"
 					}
 				}
+				if !okS && f.Signature.Recv() == nil {
+					// a constructor initialising the object it is building (whatever it wraps: no earlier snapshot of a
+					// SimpleHTTP that does not exist yet can be affected)
+					if fa, isFA := x.Addr.(*ssa.FieldAddr); isFA {
+						if _, fresh := core.Resolve(core.FieldOwner(fa)).(*ssa.Alloc); fresh {
+							okS, detail = true, "constructor initialisation of a new object"
+						}
+					}
+				}
 				c.Check(okS, "R3", key, p.InstrPos(ins), detail, detail+": the interceptor list of a SimpleHTTP shared with earlier snapshots would change in place")
 			case *ssa.Call:
 				g := core.Callee(&x.Call)
